@@ -87,11 +87,43 @@ impl Ord for LocalSegment {
     fn cmp(&self, other: &Self) -> Ordering {
         match (self, other) {
             (LocalSegment::UInt(a), LocalSegment::UInt(b)) => a.cmp(b),
-            (LocalSegment::Str(a), LocalSegment::Str(b)) => a.to_lowercase().cmp(&b.to_lowercase()),
-            (LocalSegment::UInt(_), LocalSegment::Str(_)) => Ordering::Less,
-            (LocalSegment::Str(_), LocalSegment::UInt(_)) => Ordering::Greater,
+            // A numeric part too large for u32 is kept as text: it is still numeric
+            (LocalSegment::Str(a), LocalSegment::Str(b)) => {
+                match (is_numeric_text(a), is_numeric_text(b)) {
+                    (true, true) => compare_numeric_texts(a, b),
+                    (true, false) => Ordering::Less,
+                    (false, true) => Ordering::Greater,
+                    (false, false) => a.to_lowercase().cmp(&b.to_lowercase()),
+                }
+            }
+            (LocalSegment::UInt(a), LocalSegment::Str(b)) => {
+                if is_numeric_text(b) {
+                    compare_numeric_texts(&a.to_string(), b)
+                } else {
+                    Ordering::Less
+                }
+            }
+            (LocalSegment::Str(a), LocalSegment::UInt(b)) => {
+                if is_numeric_text(a) {
+                    compare_numeric_texts(a, &b.to_string())
+                } else {
+                    Ordering::Greater
+                }
+            }
         }
     }
+}
+
+/// Non-empty text of ASCII digits
+fn is_numeric_text(text: &str) -> bool {
+    !text.is_empty() && text.chars().all(|c| c.is_ascii_digit())
+}
+
+/// Compare two texts of ASCII digits by their numeric value, whatever their size
+fn compare_numeric_texts(left: &str, right: &str) -> Ordering {
+    let left = left.trim_start_matches('0');
+    let right = right.trim_start_matches('0');
+    left.len().cmp(&right.len()).then_with(|| left.cmp(right))
 }
 
 // Helper function to compare release versions with trailing zero normalization
